@@ -508,6 +508,19 @@ func (*Ufs) Read(req *SrvReq) {
 			}
 		}
 
+		if tc.Offset != 0 {
+			/* only offsets handed out by a previous read (entry boundaries) are valid */
+			if tc.Offset > uint64(len(fid.dirents)) {
+				req.RespondError(Ebadoffset)
+				return
+			}
+			i := sort.SearchInts(fid.direntends, int(tc.Offset))
+			if i >= len(fid.direntends) || fid.direntends[i] != int(tc.Offset) {
+				req.RespondError(Ebadoffset)
+				return
+			}
+		}
+
 		switch {
 		case tc.Offset > uint64(len(fid.dirents)):
 			count = 0
